@@ -249,6 +249,49 @@ impl BlockstoreImpl {
     }
 }
 
+/// Verification hooks: read-only views of the dissemination spot of a slot.
+#[cfg(feature = "verif-hooks")]
+impl BlockstoreImpl {
+    /// Indices of the shreds held from dissemination, per slice index.
+    pub fn verif_held(&self, slot: Slot) -> Vec<(usize, Vec<usize>)> {
+        self.slot_data(slot).map_or_else(Vec::new, |s| {
+            s.disseminated
+                .shreds
+                .iter()
+                .map(|(slice, shreds)| {
+                    let held = shreds
+                        .iter()
+                        .enumerate()
+                        .filter_map(|(i, s)| s.as_ref().map(|_| i))
+                        .collect();
+                    (slice.inner(), held)
+                })
+                .collect()
+        })
+    }
+
+    /// Indices of the slices currently held in reconstructed form (dissemination spot).
+    pub fn verif_reconstructed(&self, slot: Slot) -> Vec<usize> {
+        self.slot_data(slot).map_or_else(Vec::new, |s| {
+            s.disseminated.slices.keys().map(|i| i.inner()).collect()
+        })
+    }
+
+    /// Index of the slice marked as last (dissemination spot), if known.
+    pub fn verif_last_slice(&self, slot: Slot) -> Option<usize> {
+        self.slot_data(slot)?
+            .disseminated
+            .last_slice
+            .map(SliceIndex::inner)
+    }
+
+    /// Whether the leader of `slot` has been flagged as misbehaving.
+    pub fn verif_leader_misbehaved(&self, slot: Slot) -> bool {
+        self.slot_data(slot)
+            .is_some_and(SlotBlockData::verif_leader_misbehaved)
+    }
+}
+
 #[async_trait]
 impl Blockstore for BlockstoreImpl {
     /// Stores a new shred in the blockstore.
